@@ -664,7 +664,14 @@ func shortHash(v *ViolationRec) string {
 	for _, t := range v.Tape {
 		add(strconv.Itoa(int(t)) + ",")
 	}
-	return fmt.Sprintf("%s-%08x", strings.ReplaceAll(strings.TrimPrefix(v.Oracle, v.Prop+"."), "/", "_"), uint32(h))
+	name := strings.TrimPrefix(v.Oracle, v.Prop+".")
+	name = strings.Map(func(r rune) rune {
+		if r >= 'a' && r <= 'z' || r >= 'A' && r <= 'Z' || r >= '0' && r <= '9' || r == '-' || r == '.' {
+			return r
+		}
+		return '_'
+	}, name)
+	return fmt.Sprintf("%s-%08x", name, uint32(h))
 }
 
 // confirm shrinks a violation and verifies that it replays identically in two
